@@ -256,7 +256,7 @@ func Check_Step() {
 // throughput fields only.
 func Check_Reset() {
 	a := agg.New(true)
-	k := agg.Keys[sx.Choose("key", len(agg.Keys))]
+	k := agg.Keys[sx.Choose("key", 3)]
 	r0 := baseRec(k, single)
 	r0.End = 1
 	feed(a, r0)
@@ -290,11 +290,11 @@ func Check_History() {
 	n := 2 + sx.Tier()
 	a := agg.New(true)
 	solo := agg.New(true)
-	watch := sx.Choose("watchedKey", len(agg.Keys))
+	watch := sx.Choose("watchedKey", 3)
 	seen := make([]bool, len(agg.Keys))
 	lastEnd := make([]uint32, len(agg.Keys))
 	for i := 0; i < n; i++ {
-		ki := sx.Choose("key", len(agg.Keys))
+		ki := sx.Choose("key", 3)
 		if sx.Choose("resetBefore", 2) == 1 && seen[ki] {
 			fr, _ := a.VerifFlowRecord(agg.Keys[ki].FlowKey())
 			sx.Assert(a.ResetStatAndThroughputElementsInRecord(fr.Record) == nil, "reset")
